@@ -42,6 +42,9 @@ Record exec_obs := {
   eo_streams_ok : bool;                   (* a spotlight run by a real play: its descriptors are the play's pipe, and a
                                              line of its stdout and a line of its stderr both reached the signal filters
                                              (true for everything else) *)
+  eo_opaque : bool;                       (* the with clause (of the actor, or of the one it is invoked through) holds
+                                             $(...), $((...)), an array or ( ... ): outside the mini-shell, no
+                                             prediction; the oracle applies all the same *)
 }.
 
 Record cast_case := {
@@ -132,6 +135,7 @@ Definition predicted_state (c : cast_case) (actors : list (bytes * actor)) (e : 
   end.
 
 Definition exec_model_bad1 (c : cast_case) (actors : list (bytes * actor)) (e : exec_obs) : bool :=
+  if eo_opaque e then false else
   match predicted_state c actors e with
   | None => true
   | Some st =>
